@@ -11,7 +11,6 @@ use super::{
 };
 use alloc::vec::Vec;
 use serde::Deserialize;
-use serde_json::Deserializer;
 
 /// A connection that can only be used for reading.
 ///
@@ -121,9 +120,13 @@ impl<Read: ReadHalf> ReadConnection<Read> {
     {
         self.read_from_socket().await?;
 
-        let mut stream = Deserializer::from_slice(&self.buffer[self.msg_pos..]).into_iter::<M>();
-        let msg = stream.next();
-        let null_index = self.msg_pos + stream.byte_offset();
+        // A frame ends at its null terminator, whatever its content is (valid, malformed or
+        // padded with whitespace), so a frame that fails to decode consumes exactly itself.
+        let frame_len = self.buffer[self.msg_pos..]
+            .iter()
+            .position(|b| *b == b'\0')
+            .unwrap_or(self.read_pos.saturating_sub(self.msg_pos));
+        let null_index = self.msg_pos + frame_len;
         let buffer = &self.buffer[self.msg_pos..null_index];
         if self.buffer[null_index + 1] == b'\0' {
             // This means we're reading the last message and can now reset the indices.
@@ -133,18 +136,13 @@ impl<Read: ReadHalf> ReadConnection<Read> {
             self.msg_pos = null_index + 1;
         }
 
-        match msg {
-            Some(Ok(msg)) => {
-                // SAFETY: Since the parsing from JSON already succeeded, we can be sure that the
-                // buffer contains a valid UTF-8 string.
-                trace!("connection {}: received a message: {}", self.id, unsafe {
-                    from_utf8_unchecked(buffer)
-                });
-                Ok(msg)
-            }
-            Some(Err(e)) => Err(e.into()),
-            None => Err(crate::Error::UnexpectedEof),
-        }
+        let msg = serde_json::from_slice::<M>(buffer)?;
+        // SAFETY: Since the parsing from JSON already succeeded, we can be sure that the
+        // buffer contains a valid UTF-8 string.
+        trace!("connection {}: received a message: {}", self.id, unsafe {
+            from_utf8_unchecked(buffer)
+        });
+        Ok(msg)
     }
 
     // Reads at least one full message from the socket.
